@@ -5,7 +5,7 @@ import ast
 import re
 
 from ..consteval import ConstEval, EnumMember
-from ..core import AnalysisError, ClassInfo, own_nodes, parent, short, unparse
+from ..core import AnalysisError, ClassInfo, FuncInfo, own_nodes, parent, short, unparse
 from ..rules import dsp, exa, fmt, match
 from . import c13, common
 
@@ -30,6 +30,7 @@ EXPLANATION = (
   " (FIN-dropframe) the SMPTE writer's frame labels agree with ST 12-1 around every minute boundary for drop-frame rates and count plainly for non-drop rates;"
   " (FMT-color) the #rrggbb[aa] text the writer prints, evaluated on a grid of components including alpha below 10h, is consumed whole by the reader's pattern and gives the same components;"
   ' (FIN-decoration) TextDecoration.from_model, evaluated for all 27 combinations of its three components, writes exactly one token per non-None component and the `no...` form for False;'
+  " (FMT-number) every number-to-text conversion of the attribute and style serialisers gives plain decimal notation on a grid from 1e-05 to 1234567 (no exponent, which the reader's patterns reject);"
 )
 RULE_TEXT = "per element kind, per style property, per Enum member, per special-value access, per time syntax sample"
 UNDECIDED = ["snapshot equality after re-reading", "numeric precision of written lengths (:g formatting)", "font-family quoting round trip", "times move by less than one unit and never change order"]
@@ -324,6 +325,50 @@ def check_text_decoration_tokens(ctx):
       wrong.append(f"(underline={u}, line_through={l}, overline={o}) writes {got}, must write {want}")
   ctx.check(not wrong, "FIN-decoration", f"{f.qualname}|one token per component", ctx.where(f.module, f.node), f"{n} combinations of the three components",
             "; ".join(wrong[:3]) + ": a decoration is lost or invented when the document is read back")
+def check_number_notation(ctx):
+  """FMT-number: TTML numbers are plain decimals; the reader's patterns accept no exponent.  Every place
+  of the writer's attribute / style serialisers that turns a number into text - a format
+  specification in an f-string, or a call of a formatting helper of the package - is evaluated on a
+  grid of magnitudes (1e-05 ... 1234567) and the text must be digits, an optional sign and an optional
+  fraction, nothing else."""
+  from ..consteval import FuncEval, NotConst, Raised
+  ix = ctx.ix
+  fe = FuncEval(ix)
+  plain = re.compile(r"[+-]?\d*(?:\.\d+)?")
+  grid = (1e-05, 0.5, 33.3333333, 100, 1234567, 1000001)
+  n = 0
+  for mn in ("ttconv.imsc.attributes", SP):
+    m = ix.mod(mn)
+    ctx.unit(m)
+    for g in ix.funcs_in(mn):
+      if not (g.name in ("set", "from_model") or g.name.startswith("to_ttml")):
+        continue
+      for fv in own_nodes(g.node):
+        if not isinstance(fv, ast.FormattedValue):
+          continue
+        texts = None
+        if fv.format_spec is not None and all(isinstance(x, ast.Constant) for x in fv.format_spec.values):
+          spec = "".join(str(x.value) for x in fv.format_spec.values)
+          if not spec or spec[-1] not in "gGeEfFn%":
+            continue
+          texts = [format(v, spec) for v in grid]
+          what = f"format specification `{spec}`"
+        elif fv.format_spec is None and isinstance(fv.value, ast.Call) and len(fv.value.args) == 1:
+          r = ix.resolve(g.module, fv.value.func, cls=g.cls, func=g)
+          if not isinstance(r, FuncInfo) or "format" not in r.name:
+            continue
+          try:
+            texts = [fe.call(r, {r.params[0]: v}) for v in grid]
+          except (NotConst, Raised) as e:
+            raise AnalysisError(f"{r.qualname} leaves the evaluable subset ({e})")
+          what = f"{r.short}()"
+        if texts is None:
+          continue
+        n += 1
+        bad = [f"{v!r} -> `{t}`" for v, t in zip(grid, texts) if not (isinstance(t, str) and t and plain.fullmatch(t))]
+        ctx.check(not bad, "FMT-number", f"{g.qualname}|{short(fv.value, 50)}", ctx.where(g.module, fv), f"{what}: plain decimals on the whole grid",
+                  f"{what} writes {', '.join(bad[:3])}: exponent notation is not a TTML number, the reader rejects the attribute")
+  ctx.floor("FMT-number", "number-to-text conversions in the IMSC writer", n, 10)
 
 
 def check_list_separators(ctx):
@@ -565,4 +610,5 @@ def run(ctx):
   ctx.floor("EXA", "truncation sinks on the writer's time path", n, 10)
   check_color_format(ctx)
   check_text_decoration_tokens(ctx)
+  check_number_notation(ctx)
   common.check_history_independence(ctx, ["ttconv.imsc.writer", "ttconv.imsc.reader", "ttconv.imsc.elements", "ttconv.imsc.attributes", "ttconv.imsc.utils", "ttconv.imsc.style_properties", "ttconv.imsc.config", "ttconv.time_code", "ttconv.utils"])
